@@ -385,7 +385,7 @@ func Execute(w *World, tape *simrt.Tape, gold []*Golden, onFatal func(int, strin
 		"pool-gc":    res.Stats.PoolGC,
 		"panic":      res.Stats.FPPanics,
 		"preemption": res.Stats.Switches,
-		"clock-step": res.Stats.ClockJumps,
+		"clock-step": res.Stats.ClockJumps + res.Stats.Stalls,
 	}
 	res.Probes = map[string]int64{
 		"pool-item-crossed-tasks":                 res.Stats.PoolCross,
@@ -396,6 +396,10 @@ func Execute(w *World, tape *simrt.Tape, gold []*Golden, onFatal func(int, strin
 		"library-spawned-tasks":                   res.Stats.Spawned,
 		"channel-operations":                      res.Stats.ChanOps,
 		"clock-reads-by-the-library":              res.Stats.ClockReads,
+		"timers-armed-by-the-library":             res.Stats.Timers,
+		"timers-fired":                            res.Stats.TimerFires,
+		"stalls-while-timers-armed":               res.Stats.Stalls,
+		"waits-on-a-context-channel":              res.Stats.Polls,
 		"schemas-sharing-type-objects-judged":     x.sharedJudged,
 		"schemas-sharing-type-objects-not-judged": x.sharedSkipped,
 	}
